@@ -216,3 +216,11 @@ def x5(ctx):
 
 
 RULES = [x0, x1, x2, x3, x5]
+
+
+@rule("SI", doc="slot inclusion at re-insert: the work-list handler puts a re-canonicalised e-node back only after slots(class) ⊆ slots(node) was tested true or the class was shrunk")
+def si(ctx):
+    C.slot_inclusion(ctx, ctx.lib())
+
+
+RULES.append(si)
